@@ -30,6 +30,7 @@ MIN_REACH = {
     "batch_files_read": {"quick": 2500, "thorough": 30000},
     "contract_evals_choose_batch_settings": {"quick": 300, "thorough": 3000},
     "crops_given_a_size_and_a_count_that_agree": {"quick": 20, "thorough": 60},
+    "farmers_that_are_instances_of_a_user_subclass": {"quick": 10, "thorough": 60},
     "sows_of_two_thousand_and_more_settings": {"quick": 3, "thorough": 4},
     "resows_of_count_crops_whose_first_sow_divided_evenly": {"quick": 12, "thorough": 40},
     "reloads_checked": {"quick": 300, "thorough": 3000},
@@ -341,8 +342,16 @@ def run_case(ctx, case):
             fa = {"fn_args": tuple(w["names"])}
             sowkw_extra["names_from_farmer"] = True
             ctx.count("positional_cases_named_by_the_farmers_fn_args")
-        farmer = xyzpy.Runner(fn, var_names=None if w["kind"].startswith(("data", "dict")) else "out",
-                              constants=fc, resources=fr, **fa)
+        runner_cls = xyzpy.Runner
+        if (len(fc) + len(fr) + len(str(case.get("batchsize"))) + len(str(case.get("num_batches")))) % 2 == 0:
+            # the project's own subclass of Runner (extra helpers, same behaviour)
+            class ProjectRunner(xyzpy.Runner):
+                def describe(self):
+                    return "project runner"
+            runner_cls = ProjectRunner
+            ctx.count("farmers_that_are_instances_of_a_user_subclass")
+        farmer = runner_cls(fn, var_names=None if w["kind"].startswith(("data", "dict")) else "out",
+                            constants=fc, resources=fr, **fa)
         farmer_consts = _direct_run_extras(farmer, {**fr, **fc})
     ctor = {}
     sowkw = {}
